@@ -3,6 +3,9 @@ package mime
 import (
 	"encoding/json"
 	"fmt"
+	restful "github.com/emicklei/go-restful/v3"
+	"io"
+	stdlog "log"
 	"os"
 	"path/filepath"
 	"sort"
@@ -548,6 +551,39 @@ func checkRegressions(run *report.Run) error {
 		}
 	}
 	run.Count("replays/F07.json:replayed-as-regression")
+	return nil
+}
+
+// CheckTracePurity (C19): content negotiation answers the same with trace logging on and off. Cases
+// whose answer may legitimately vary between dispatches (the open finding F07b: map iteration order)
+// are recognised by the model's answer being a set of more than one writer, and skipped.
+func CheckTracePurity(run *report.Run, n int) error {
+	Setup()
+	base := rng.New(run.Seed*1000003 + 91)
+	bad := 0
+	for i := 0; i < n; i++ {
+		c := Gen(base.Fork(uint64(i)))
+		off := Execute(c, c.Accept(), 1)
+		restful.TraceLogger(stdlog.New(io.Discard, "", 0)) // sets the logger and enables tracing
+		on := Execute(c, c.Accept(), 1)
+		restful.EnableTracing(false)
+		run.Evaluations++
+		run.TracesValidated++
+		run.Count("negotiation:traced-replays")
+		if ClassF07b(c.Accept(), c.Produces) {
+			run.Count("negotiation:traced-replays:skipped(F07b class: answer depends on map iteration order)")
+			continue
+		}
+		if off[0].Kind == "ct" {
+			run.Distinct["mime-trace|"+c.Signature()] = true
+		}
+		a, b := fmt.Sprintf("%+v", off[0]), fmt.Sprintf("%+v", on[0])
+		if a != b && bad < 3 {
+			bad++
+			run.AddViolation(report.Violation{Kind: "counterexample", What: "C19: the negotiated representation differs when trace logging is enabled",
+				Human: map[string]interface{}{"accept": c.Accept(), "produces": c.Produces, "default": c.Default, "router": c.Router}, Real: "trace off: " + a, Model: "trace on:  " + b})
+		}
+	}
 	return nil
 }
 
